@@ -465,6 +465,7 @@ def deep_copy(v, memo):
     if isinstance(v, CondVal):
         c = CondVal(deep_copy(v.lock, memo))
         c.notified, c.waits = v.notified, v.waits
+        c.notified_all = v.notified_all
         memo[id(v)] = c
         return c
     if isinstance(v, STuple):
